@@ -181,7 +181,8 @@ Qed.
 Lemma top_accept_loop evs : accept_loop evs = map is_conn evs.
 Proof.
   assert (F : accept_error_stops_server = false) by reflexivity.
-  unfold accept_loop. rewrite F. apply accept_loop_serves_all.
+  assert (G : setup_awaited_in_accept_loop = false) by reflexivity.
+  unfold accept_loop. rewrite F, G. apply accept_loop_serves_all.
 Qed.
 
 (* the hand-over: the response leaves truncated (TC) exactly when, after the EDNS
